@@ -9,6 +9,11 @@
      - Addr(p) = Addr(p with any subset of children made opaque)
      - an opaque policy is never satisfied; if p can be satisfied, p with one
        revealed child hidden cannot be satisfied by anything
+     - family "num": every numeric parameter of every policy kind at the
+       extremes of its machine type (0, 1, len, len+1, 255, 256 and the value
+       classes BIG / NEG of Policy.tla, whose members the harness instantiates
+       one by one); a revealed parameter of class BIG makes a policy
+       unsatisfiable, a time lock of class NEG asks for nothing
    Binding: every checked (policy, context) prints one ROW with the set of
    witness assignments Meaning accepts; the harness replays the whole row on
    the real code.
@@ -123,10 +128,21 @@ RowSeq(p, cs, j) == IF j > Len(cs) THEN <<>>
 RECURSIVE HidSeq(_, _)
 HidSeq(p, i) == IF i > Len(p.of) THEN <<>>
                 ELSE (IF p.of[i].k # "opaque" THEN <<Str(HideSet(p, {i}))>> ELSE <<>>) \o HidSeq(p, i + 1)
+\* what the class BIG means, said once more without the walk or the demand list: a policy with a
+\* revealed lock or required count beyond the model is satisfied by nothing, under no context
+RECURSIVE NeverByClass(_)
+NeverByClass(p) ==
+  \/ p.k \in {"above", "after"} /\ p.a = BIG
+  \/ p.k = "uc" /\ (p.a = BIG \/ p.b = BIG)
+  \/ p.k = "thresh" /\ \E i \in DOMAIN p.of : NeverByClass(p.of[i])
+\* ... and a time lock of class NEG asks for nothing
+AlwaysByClass(p) == p.k = "after" /\ p.a = NEG
 Design(p, cs, rows) ==
   /\ \A j \in DOMAIN cs :
        LET c == Ctxs[cs[j]]  acc == ToSet(rows[j].acc) IN
        /\ acc = AcceptA(p, c)                                        \* VerifyAlg = Meaning
+       /\ NeverByClass(p) => acc = {}
+       /\ AlwaysByClass(p) => acc = {w \in W : SigOf(w) = <<>> /\ PreOf(w) = <<>>}
        /\ p.k = "uc" => acc = AcceptG(p, c)                          \* earliest match = injection
        /\ acc # {} => Satisfiable(p, c)
        /\ p.k = "opaque" => acc = {}                                 \* opaque is never satisfied
